@@ -14,6 +14,13 @@ state the property is about:
   pad             PAD kept as its own operator: constant border tensors with memoised equivalence ids
   lut2            two or three LUT activations, possibly with identical tables (equivalence id memo + SHRAM slots)
   dupnames        several tensors of the output model share one name (the writer sorts tensors by name)
+  custom_codes    three to five DIFFERENT third-party CUSTOM operators (same version) left on the CPU: the writer's
+                  operator-code table is built from a set of (type, custom code, version) triples whose iteration
+                  order follows the string hash, i.e. PYTHONHASHSEED
+  twin0 / twin1   two networks that are identical (structure, shapes, every scale and zero point, weights) except for ONE
+                  operator attribute that only the table/kernel generator reads: GELU approximate true/false, LEAKY_RELU
+                  alpha, LOGISTIC vs TANH with forced equal quantisation; int8 and int16. Compiled one after the other
+                  they expose any process-wide memo whose key leaves that attribute out.
 """
 import random
 import zlib
@@ -22,12 +29,14 @@ import zlib
 import netgen
 import pipe_common
 
-OWN_KINDS = ["shared_w", "shared_w_dtype", "mean", "pad", "lut2", "dupnames"]
+OWN_KINDS = ["shared_w", "shared_w_dtype", "mean", "pad", "lut2", "dupnames", "custom_codes", "twin0", "twin1"]
 PROFILE_KINDS = ["mixed", "cascade", "weights", "elementwise", "cpu", "cascade_chain", "lut", "weird"]
 
 
 def spec_rng(spec):
     kind, seed = spec
+    if kind in ("twin0", "twin1"):
+        kind = "twin"               # the two variants draw exactly the same random numbers
     return random.Random((int(seed) << 16) ^ zlib.crc32(kind.encode()))
 
 
@@ -36,6 +45,8 @@ def build(spec):
     rng = spec_rng(spec)
     if kind in PROFILE_KINDS:
         return pipe_common.make_net(rng, seed % 100000, kind)
+    if kind in ("twin0", "twin1"):
+        return _twin(rng, seed, int(kind[-1]))
     return globals()["_" + kind](rng, seed)
 
 
@@ -156,6 +167,58 @@ def _dupnames(rng, seed):
         b.t(x).name = name
     b.net.desc.append(f"dupnames n={len(outs)} name={name}")
     return b.finish(outs)
+
+
+CUSTOM_CODES = ["ThirdPartyOp", "AcmeFFT", "my_custom_nms", "Zeta", "vendor.op.v2", "TFLite_Detection_PostProcess", "a", "B"]
+
+
+def _custom_codes(rng, seed):
+    b = netgen.B(rng, f"cust{seed % 1000}", rng.choice(["int8", "uint8", "int16"]))
+    x = b.input([1, rng.randint(2, 8), rng.randint(2, 8), rng.choice([4, 8, 16])])
+    codes = rng.sample(CUSTOM_CODES, rng.randint(3, 5))
+    cur = x
+    if rng.random() < 0.5:
+        cur = b.conv(cur, 8, (1, 1), (1, 1), (1, 1), "SAME")
+    for code in codes:
+        xt = b.t(cur)
+        o = b.fm(xt.shape, xt.dtype, scale=xt.scales[0], zp=xt.zps[0])
+        b.net.ops.append(netgen.Op("CUSTOM", [cur], [o], None, custom_code=code,
+                                   custom_options=bytes(rng.getrandbits(8) for _ in range(rng.randint(1, 8)))))
+        cur = o
+        if rng.random() < 0.3:
+            cur = b.unary("RELU", cur)
+    b.net.desc.append(f"custom_codes {codes}")
+    return b.finish([cur])
+
+
+def _twin(rng, seed, variant):
+    dtype = rng.choice(["int8", "int8", "int16"])
+    b = netgen.B(rng, f"twin{seed % 1000}", dtype)
+    c = rng.choice([4, 8, 16])
+    # few quantisations, so that twins of different seeds collide as well
+    in_scale = rng.choice([1 / 16, 1 / 32, 0.05]) if dtype == "int8" else rng.choice([1 / 4096, 1 / 8192])
+    out_scale = rng.choice([1 / 16, 1 / 32]) if dtype == "int8" else 1 / 8192
+    zp_in = rng.choice([0, 0, -3]) if dtype == "int8" else 0
+    zp_out = rng.choice([0, -128]) if dtype == "int8" else 0
+    x = b.input([1, rng.randint(2, 8), rng.randint(2, 8), c], scale=in_scale, zp=zp_in)
+    cur = x
+    if rng.random() < 0.4:
+        cur = b.conv(cur, c, (1, 1), (1, 1), (1, 1), "SAME", out_scale=in_scale)
+        b.t(cur).zps = [zp_in]
+    what = rng.choice(["gelu", "gelu", "gelu", "lrelu", "sigm_tanh"])
+    xt = b.t(cur)
+    o = b.fm(xt.shape, dtype, scale=out_scale, zp=zp_out)
+    if what == "gelu":
+        b.net.ops.append(netgen.Op("GELU", [cur], [o], ("GeluOptions", dict(Approximate=bool(variant)))))
+    elif what == "lrelu":
+        b.net.ops.append(netgen.Op("LEAKY_RELU", [cur], [o], ("LeakyReluOptions", dict(Alpha=[0.1, 0.3][variant]))))
+    else:
+        b.net.ops.append(netgen.Op(["LOGISTIC", "TANH"][variant], [cur], [o]))
+    cur = o
+    if rng.random() < 0.3:
+        cur = b.conv(cur, 8, (1, 1), (1, 1), (1, 1), "SAME")
+    b.net.desc.append(f"twin {what} variant={variant} dtype={dtype} in=({in_scale},{zp_in}) out=({out_scale},{zp_out})")
+    return b.finish([cur])
 
 
 def has_duplicate_names(net):
